@@ -22,7 +22,8 @@ RULE = ("a case is a namespace tree on disk (3-12 definitions in 1-3 root direct
         "that component / two names equal up to case in different versions referenced with all (spelling, version) combinations / a self "
         "reference or 2-/3-cycle through a definition that has a twin in a same-named second root directory / versions >= 10 and "
         "unreferenced versions whose decimal digits concatenate like a referenced one (11.0 / 1.10) / one definition referring to a "
-        "type twice, exactly spelled and in another letter case, in both orders) plus read_namespace and read_files calls for several target subsets, and one read_files "
+        "type twice, exactly spelled and in another letter case, in both orders / a relative reference whose only case-insensitive "
+        "candidate lives in a namespace spelled in another letter case (last / middle component, root directory)) plus read_namespace and read_files calls for several target subsets, and one read_files "
         "call per definition on its own; non-trivial = at least one call returns a type with a nested composite or fails in "
         "resolution; distinct = by hash of the canonical case")
 THEOREMS_NOTE = ("C09_resolve_exact / C09_resolve_never_other / C09_errors fix the outcome of a resolution, C09_terminates / C09_cycles / "
@@ -461,7 +462,7 @@ def all_dirs_queries(rng, roots, defs, extra_lookups=None):
 
 
 def gen_case(rng, tier, flavor=None):
-    flavor = flavor or rng.choice(["plain", "plain", "plain", "plain", "cycle", "case", "dup_root", "wrongcase", "self", "twins", "f7", "nsprefix", "nsprefix", "casever", "casever", "dupcycle", "dupcycle", "digits", "caserepeat"])
+    flavor = flavor or rng.choice(["plain", "plain", "plain", "plain", "cycle", "case", "dup_root", "wrongcase", "self", "twins", "f7", "nsprefix", "nsprefix", "casever", "casever", "dupcycle", "dupcycle", "digits", "caserepeat", "nscase", "nscase"])
     opts = {"print_p": 0.15, "missing_p": 0.015, "badrel_p": 0.015, "fault_p": 0.01}
     if flavor == "cycle":
         opts["cycle_p"] = 0.25
@@ -513,6 +514,8 @@ def gen_case(rng, tier, flavor=None):
         add_digits(rng, roots, defs)
     if flavor == "caserepeat":
         add_caserepeat(rng, roots[0], defs)
+    if flavor == "nscase":
+        add_nscase(rng, roots, defs)
     qs = all_dirs_queries(rng, roots, defs)
     return {"files": defs, "queries": qs, "flavor": flavor, "dirs": roots}
 
@@ -566,6 +569,43 @@ def add_dupcycle(rng, roots, defs, kind=None, sub=None, twin_body=None, link_in_
     if rng.random() < 0.5:
         # somebody who merely uses Node: ambiguous while both directories are looked up
         defs.append(mkfile(n, r0 + sub, "User", 1, 0, [["ref", rel("Node"), 1, 0, 0]]))
+
+
+def add_nscase(rng, roots, defs, where=None, pre=None, post=None, control=None):
+    """A relative (dot-less) reference from a nested namespace whose ONLY case-insensitive candidate lives in a namespace that
+    is spelled like the referrer's up to letter case (mis-cased last / middle component, or a root directory of another
+    letter case): it must be reported (letter case), never resolved into the other namespace.  No two definitions are equal
+    up to case with one version, so this is not the F7 situation.  (May append a root directory to roots.)"""
+    where = where or rng.choice(["last", "last", "middle", "root"])
+    pre = pre if pre is not None else rng.choice([[], [], ["s"]])
+    post = post if post is not None else rng.choice([[], [], ["t"]])
+    r0 = roots[0]
+    if where == "root":
+        r2 = ["e", r0[-1].swapcase() if r0[-1].swapcase() != r0[-1] else r0[-1].upper()]
+        if r2 not in roots:
+            roots.append(r2)
+        sub = pre + ["cage"] + post
+        d_ref, d_def = r0 + sub, r2 + sub
+    elif where == "middle":
+        d_ref, d_def = r0 + pre + ["cage", "in"] + post, r0 + pre + ["Cage", "in"] + post
+    else:
+        d_ref, d_def = r0 + pre + post + ["cage"], r0 + pre + post + [rng.choice(["Cage", "CAGE", "cagE"])]
+    i = len(defs)
+    arr = rng.choice([0, 0, 2])
+    defs.append(mkfile(i, d_ref, "Keeper", 1, 0, [["plain", 8], ["ref", "Animal", 1, 0, arr]]))
+    defs.append(mkfile(i + 1, d_def, "Animal", 1, 0, [["plain", 16]]))
+    n = i + 2
+    if (rng.random() < 0.6) if control is None else control:
+        # control: the same relative reference from the namespace where Animal really lives
+        defs.append(mkfile(n, d_def, "Vet", 1, 0, [["ref", "Animal", 1, 0, 0]]))
+        n += 1
+    if rng.random() < 0.3:
+        # another VERSION of Animal next to the referrer (still no candidate for 1.0 there)
+        defs.append(mkfile(n, d_ref, "Animal", 2, 0, [["plain", 8]]))
+        n += 1
+    if rng.random() < 0.4:
+        # somebody who uses Keeper: the error must surface through the referrer as well
+        defs.append(mkfile(n, d_ref, "Zoo", 1, 0, [["ref", "Keeper", 1, 0, 0]]))
 
 
 def add_caserepeat(rng, root, defs, order=None, rel=None):
@@ -720,6 +760,17 @@ def corpus():
                 fs.append(mkfile(k, ns, "R%d" % k, 1, 0, [["ref", nm if k % 2 else "ns." + nm, v[0], v[1], 0]]))
                 k += 1
         out.append(mk(fs))
+    # relative reference whose only candidate lives in a namespace spelled in another letter case
+    import random as _random4
+    for where, pre, post in [("last", [], []), ("last", ["s"], []), ("middle", [], []), ("root", [], [])]:
+        fs, rts = [], [ns]
+        add_nscase(_random4.Random(2), rts, fs, where=where, pre=pre, post=post, control=True)
+        ids = [f["id"] for f in fs]
+        qs = [{"k": "ns", "root": ns, "lookups": rts[1:], "allow": True, "same_dirs": True},
+              {"k": "files", "targets": ids, "roots": rts, "lookups": [], "same_dirs": True},
+              {"k": "files", "targets": [0], "roots": [ns], "lookups": rts[1:], "same_dirs": True}]
+        qs += [{"k": "files", "targets": [i], "roots": rts, "lookups": [], "solo": i, "same_dirs": True} for i in ids]
+        out.append({"files": fs, "queries": qs, "flavor": "corpus", "dirs": rts})
     # the same type referenced twice by one definition, exact spelling first and another letter case afterwards
     import random as _random3
     for order, rel in [("good-bad", True), ("good-bad", False), ("bad-good", True), ("good-good-bad", False)]:
